@@ -23,7 +23,7 @@ PY
   if echo "$out" | grep -q KEPT; then
     python3 - /verif/seeded/$id/meta.json <<'PY'
 import json,sys
-m=json.load(open(sys.argv[1])); m["round"]=13; json.dump(m,open(sys.argv[1],'w'),indent=1)
+m=json.load(open(sys.argv[1])); m["round"]=14; json.dump(m,open(sys.argv[1],'w'),indent=1)
 PY
     /verif/tools/seedtest.sh /verif/seeded/$id/patch.diff $p 2>&1 | grep -E "DETECTED|MISSED|site=" | head -3
   fi
